@@ -123,7 +123,9 @@ Inductive out := OOk | OErr | ONext (r : Z).
 Record env := mkEnv {
   e_scr : list (list bop);     (* slot of entry e, as a script *)
   e_valid : list bool;         (* SchedulerEntry::is_valid(): slot != nullptr *)
-  e_fuel : nat                 (* max number of slot invocations per perform the harness allows *)
+  e_fuel : nat;                (* max number of slot invocations per perform the harness allows *)
+  e_foreign : list bool        (* entry is currently scheduled in ANOTHER scheduler
+                                  (m_handle != nullptr && m_handle->scheduler != this) *)
 }.
 
 Record state := mkS { heap : list handle; ents : list (option nat); now : Z; next_hid : nat }.
@@ -139,6 +141,7 @@ Definition max_for (years : Z) : Z := years * 365 * day_us.
 Definition ceil_seconds (t : Z) : Z := Z.quot (t + 1000000 - 1) 1000000 * 1000000.
 
 Definition valid (E : env) (e : nat) : bool := nth e (e_valid E) false.
+Definition foreign (E : env) (e : nat) : bool := nth e (e_foreign E) false.
 Definition handle_of (s : state) (e : nat) : option nat := nth e (ents s) None.
 
 Definition is_tomb (h : handle) : bool := match h_entry h with None => true | Some _ => false end.
@@ -157,7 +160,8 @@ Definition wait_until (E : env) (s : state) (e : nat) (t : Z) : state * out :=
   else if negb (valid E e) then (s, OErr)
   else match handle_of s e with
        | Some _ => (s, OErr)
-       | None => (push_entry s e t, OOk)
+       | None => if foreign E e then (s, OErr)      (* is_scheduled(): "already scheduled" *)
+                 else (push_entry s e t, OOk)
        end.
 
 Definition update_wait_until (E : env) (s : state) (e : nat) (t : Z) : state * out :=
@@ -166,12 +170,14 @@ Definition update_wait_until (E : env) (s : state) (e : nat) (t : Z) : state * o
   else if negb (valid E e) then (s, OErr)
   else match handle_of s e with
        | Some hid => (push_entry (mkS (tombstone (heap s) hid) (ents s) (now s) (next_hid s)) e t, OOk)
-       | None => (push_entry s e t, OOk)
+       | None => if foreign E e then (s, OErr)      (* "entry that is in another scheduler" *)
+                 else (push_entry s e t, OOk)
        end.
 
 Definition erase (E : env) (s : state) (e : nat) : state * out :=
   match handle_of s e with
-  | None => (s, OOk)
+  | None => if foreign E e then (s, OErr)           (* scheduled, but in another scheduler (or invalid) *)
+            else (s, OOk)
   | Some hid =>
       if negb (valid E e) then (s, OErr)
       else (mkS (tombstone (heap s) hid) (upd (ents s) e None) (now s) (next_hid s), OOk)
@@ -294,6 +300,31 @@ Fixpoint run (E : env) (s : state) (ops : list op) : state * list (list ev) :=
   | [] => (s, [])
   | o :: r => let '(s1, l) := step E s o in
               let '(s2, ls) := run E s1 r in (s2, l :: ls)
+  end.
+
+(* ---------------------------------------------------------------- two schedulers
+   Entries have ONE m_handle pointer; an entry scheduled in scheduler B is "foreign" to scheduler A
+   and vice versa. A is the scheduler under test (dispatched, driven by threads), B only receives
+   basic operations. Each side runs the single-scheduler code above with e_foreign set to the
+   entries currently scheduled on the other side (constant while one side executes). *)
+Definition sched_mask (s : state) : list bool :=
+  map (fun x => match x with Some _ => true | None => false end) (ents s).
+Definition with_foreign (E : env) (m : list bool) : env := mkEnv (e_scr E) (e_valid E) (e_fuel E) m.
+
+Inductive op2 := OnA (o : op) | OnB (b : bop).
+
+Definition step2 (E : env) (st : state * state) (o : op2) : (state * state) * list ev :=
+  let '(sA, sB) := st in
+  match o with
+  | OnA o => let '(sA', evs) := step (with_foreign E (sched_mask sB)) sA o in ((sA', sB), evs)
+  | OnB b => let '(sB', r) := exec_basic (with_foreign E (sched_mask sA)) sB b in ((sA, sB'), [EOut r])
+  end.
+
+Fixpoint run2 (E : env) (st : state * state) (ops : list op2) : (state * state) * list (list ev) :=
+  match ops with
+  | [] => (st, [])
+  | o :: r => let '(st1, l) := step2 E st o in
+              let '(st2, ls) := run2 E st1 r in (st2, l :: ls)
   end.
 
 (* observation of the final state: entry -> time_or_zero() restricted to scheduled entries *)
